@@ -6,6 +6,7 @@ import (
 	"bytes"
 	"fmt"
 	"math/big"
+	"strings"
 	"unsafe"
 
 	"github.com/bytemare/secp256k1"
@@ -111,6 +112,27 @@ func c15Generate(c *mon.Ctx) {
 		// SEC1 hybrid forms of a valid point (prefix 06/07 by the parity of y): if accepted at all they must not be rewritten in place
 		mon.H(append([]byte{6 + byte(g.Y.Bit(0))}, oracle.EncU(g)[1:]...)), mon.H(append([]byte{7 - byte(g.Y.Bit(0))}, oracle.EncU(g)[1:]...)),
 		mon.H(oracle.Bytes32(big.NewInt(12345))), mon.H(oracle.Bytes32(oracle.N)), mon.H(oracle.Bytes32(new(big.Int).Sub(oracle.N, big.NewInt(1)))), pat(31, 9), pat(64, 7),
+	}
+
+	// the textual forms of the same encodings handed to the byte decoders (what DecodeHex / a JSON or config layer would
+	// hold): ASCII hex in both cases, quoted, 0x-prefixed
+	for _, raw := range [][]byte{oracle.EncC(g), oracle.EncU(g), {0}, oracle.Bytes32(big.NewInt(12345)), oracle.EncC(oracle.Dbl(g))} {
+		hx := mon.H(raw)
+		for _, txt := range []string{hx, strings.ToUpper(hx), "\"" + hx + "\"", "0x" + hx, hx + "\n", hx[:len(hx)-1] + "g"} {
+			inputs = append(inputs, mon.H([]byte(txt)))
+		}
+	}
+
+	// every input length around the accepted ones, as ASCII digits and as bytes
+	for l := 0; l <= 140; l++ {
+		for _, fill := range []byte{'0', 0x02, 'f'} {
+			in := mon.H(bytes.Repeat([]byte{fill}, l))
+
+			for fi, fn := range c15DataFns {
+				cs := &c15Case{Kind: "bytes", Fn: fn, Mode: []string{"trap", "canary"}[(l+fi)%2], Layout: c15Layouts[(l+fi)%len(c15Layouts)], Data: in}
+				c.Structured(func() any { return cs })
+			}
+		}
 	}
 
 	for _, fn := range c15DataFns {
